@@ -356,6 +356,10 @@ class OrderedRingBuffer(Generic[FloatArray]):
                 f"start ({start}) and end ({end}) must both be either datetime or index."
             )
 
+        # Align the (possibly arbitrary) timestamps with the slots of the buffer
+        start = self.normalize_timestamp(start)
+        end = self.normalize_timestamp(end)
+
         # Ensure that the window is within the bounds of the buffer
         assert self.oldest_timestamp is not None and self.newest_timestamp is not None
         start = max(start, self.oldest_timestamp)
